@@ -368,6 +368,41 @@ func runC16(r *Rng, n int, replay string) {
 					break
 				}
 			}
+			// ... nor through a handle: one from Open, one from OpenFile(read-write), and the handle that CREATED the file
+			// (where the layer can create; the file is removed again before the directory is paged)
+			for _, ch := range cs {
+				if ch.isDir {
+					continue
+				}
+				p := joinP(dir, ch.name)
+				fresh := joinP(dir, "zz-fresh")
+				for hi, open := range []func() (hackpadfs.File, error){
+					func() (hackpadfs.File, error) { return fs.Open(p) },
+					func() (hackpadfs.File, error) { return hackpadfs.OpenFile(fs, p, hackpadfs.FlagReadWrite, 0) },
+					func() (hackpadfs.File, error) {
+						return hackpadfs.OpenFile(fs, fresh, hackpadfs.FlagReadWrite|hackpadfs.FlagCreate|hackpadfs.FlagExclusive, 0o644)
+					},
+					func() (hackpadfs.File, error) {
+						return hackpadfs.OpenFile(fs, fresh, hackpadfs.FlagReadOnly|hackpadfs.FlagCreate, 0o644)
+					},
+				} {
+					h, err := open()
+					if err != nil {
+						continue // (a layer that cannot open for writing or create)
+					}
+					for _, cnt := range []int{-1, 1} {
+						ents, rerr := hackpadfs.ReadDirFile(h, cnt)
+						if rerr == nil || classOf(rerr) != "ENOTDIR" {
+							fail("notdir-handle", "ReadDir(%d) on handle kind %d of a regular file: %d entries, %v (want ErrNotDir)", cnt, hi, len(ents), rerr)
+						}
+					}
+					_ = h.Close()
+					if hi >= 2 {
+						_ = hackpadfs.Remove(fs, fresh)
+					}
+				}
+				break
+			}
 			// paging
 			f, err := fs.Open(dir)
 			if err != nil {
